@@ -205,6 +205,8 @@ bool SectionHDF5::deleteSection(const string &name_or_id) {
             for (auto &child : section.sections()) {
                 section.deleteSection(child.id());
             }
+            // a link that leads back to the section (or into its subtree) would keep the deleted section alive
+            section.link(nix::none);
             // if hasSection is true then section_group always exists
             deleted = g->removeAllLinks(section.name());
         }
